@@ -26,7 +26,7 @@ MonInit(cfg) ==
    eclosing |-> {}, emaybe |-> 0,
    expC |-> <<>>, expE |-> <<>>, H |-> {}, stray |-> <<>>,
    rel |-> 0, relwin |-> FALSE,
-   lost |-> FALSE, idleOk |-> FALSE, eunc |-> FALSE, sctx |-> "", ccalled |-> FALSE, lline |-> <<>>, cprev |-> <<-1>>, eprev |-> <<-1>>, lastfail |-> <<-1, -1>>, lout |-> [k |-> "none", c |-> -1, args |-> <<>>, why |-> ""], owed |-> {}, rt |-> FALSE,
+   lost |-> FALSE, idleOk |-> FALSE, eunc |-> FALSE, sctx |-> "", ccalled |-> FALSE, ecalled |-> FALSE, lline |-> <<>>, cprev |-> <<-1>>, eprev |-> <<-1>>, lastfail |-> <<-1, -1>>, lout |-> [k |-> "none", c |-> -1, args |-> <<>>, why |-> ""], owed |-> {}, rt |-> FALSE,
    bad |-> <<>>, ulog |-> <<>>, uncl |-> 0, txns |-> 0, units |-> 0, evs |-> 0, last |-> <<>>]
 
 \* at most 4 entries per tag and scenario are kept (a flood of one kind must not hide a contradiction of another kind)
@@ -150,7 +150,7 @@ StartTxn(m, o) ==
 (***************************************************************************)
 (* Event producer                                                          *)
 (***************************************************************************)
-EvDone(m) == [m EXCEPT !.eclosing = IF m.ec >= 0 THEN @ \cup {<<m.ec, m.et>>} ELSE @, !.eph = "idle", !.ec = -1]
+EvDone(m) == [m EXCEPT !.eclosing = IF m.ec >= 0 THEN @ \cup {<<m.ec, m.et>>} ELSE @, !.eph = "idle", !.ec = -1, !.ecalled = FALSE]
 
 RECURSIVE AdvEvRead(_)
 RECURSIVE StartEv(_)
@@ -189,7 +189,7 @@ EvFormat(m) ==
 StartEv(m) ==
   IF m.eph # "idle" \/ m.q = <<>> \/ m.lost THEN m
   ELSE LET it == Head(m.q) IN
-       EvFormat([m EXCEPT !.q = Tail(@), !.ec = it[1], !.et = it[2], !.emaybe = IF @ < m.cfg.qcap THEN @ + 1 ELSE @, !.evs = @ + 1])
+       EvFormat([m EXCEPT !.q = Tail(@), !.ec = it[1], !.et = it[2], !.ecalled = FALSE, !.emaybe = IF @ < m.cfg.qcap THEN @ + 1 ELSE @, !.evs = @ + 1])
 
 (***************************************************************************)
 (* Queue bookkeeping for trigger / is_full / is_buffered                    *)
@@ -395,8 +395,10 @@ OnCmdC(m, e) ==
                        [] want = "write" -> e.data = m.ctxt /\ e.size = Len(m.ctxt) /\ e.nul /\ e.aux = m.cnp
                        [] OTHER -> e.data = m.ctxt /\ e.size = Len(m.ctxt) /\ e.aux = m.cfg.acap
        IN IF ~argsOk THEN AddBad(m, IF want \in {"read", "test"} /\ e.data = m.cprev THEN "C06,C10"
-                                    ELSE IF want = "read" /\ e.size = Len(e.data) /\ e.aux = m.cfg.acap THEN (IF e.data = m.cunm THEN "C08" ELSE "C07")
-                                    ELSE IF want = "test" /\ e.size = Len(e.data) /\ e.aux = m.cfg.acap THEN "C19" ELSE "C06",
+                                    \* a re-invocation (after NEXT / DATA_NEXT) owes the freshly formatted text: the code table (C10) as well as the formatter
+                                    ELSE IF want = "read" /\ e.size = Len(e.data) /\ e.aux = m.cfg.acap THEN (IF e.data = m.cunm THEN "C08" ELSE IF m.ccalled THEN "C07,C10" ELSE "C07")
+                                    ELSE IF want = "test" /\ e.size = Len(e.data) /\ e.aux = m.cfg.acap THEN (IF m.ccalled THEN "C19,C10" ELSE "C19")
+                                    ELSE IF m.ccalled /\ want \in {"read", "test"} THEN "C06,C10" ELSE "C06",
                                  <<"handler arguments", e.kind, e.data, e.size, e.aux, "expected", m.ctxt, m.cnp>>)
   ELSE LET m1 == MonNested([m EXCEPT !.ccalled = TRUE, !.cprev = IF want \in {"read", "test"} /\ e.ret \in {RET_NEXT, RET_DATA_NEXT} /\ e.data2 # e.data THEN e.data2 ELSE <<-1>>], e.in, "c")
            r == e.ret
@@ -428,9 +430,11 @@ OnCmdE(m, e) ==
   IF e.c # m.ec \/ e.kind # want THEN AddBad(m, "C13", <<"event handler out of order", e.kind, e.c, "expected", want, m.ec>>)
   ELSE IF ~(e.data \in m.etxt /\ e.size = Len(e.data) /\ e.aux = m.cfg.ucap) THEN
        AddBad(m, IF e.data = m.eprev THEN "C06,C10"
-                 ELSE IF e.size = Len(e.data) /\ e.aux = m.cfg.ucap THEN (IF want = "read" THEN (IF e.data = m.eunm THEN "C08" ELSE "C07") ELSE "C19") ELSE "C06",
+                 ELSE IF e.size = Len(e.data) /\ e.aux = m.cfg.ucap THEN (IF want = "read" THEN (IF e.data = m.eunm THEN "C08" ELSE IF m.ecalled THEN "C07,C10" ELSE "C07")
+                                                                          ELSE IF m.ecalled THEN "C19,C10" ELSE "C19")
+                 ELSE IF m.ecalled THEN "C06,C10" ELSE "C06",
               <<"event handler arguments", e.data, e.size, e.aux, "expected", m.etxt>>)
-  ELSE LET m0 == [m EXCEPT !.emaybe = 0, !.eclosing = {}, !.eprev = IF e.ret \in {RET_NEXT, RET_DATA_NEXT} /\ e.data2 # e.data THEN e.data2 ELSE <<-1>>]
+  ELSE LET m0 == [m EXCEPT !.emaybe = 0, !.eclosing = {}, !.ecalled = TRUE, !.eprev = IF e.ret \in {RET_NEXT, RET_DATA_NEXT} /\ e.data2 # e.data THEN e.data2 ELSE <<-1>>]
            m1 == MonNested(m0, e.in, "e")
            r == e.ret
            dataU(last) == EvUnit(m, {e.data2}, last, "C10", -1)
